@@ -2033,3 +2033,221 @@ func (n *normalizer) structAssignRound() bool {
 	}
 	return changed
 }
+
+// unwrapRound: a struct type the reference tree does not have, with exactly one field and no methods left (they have been
+// inlined), is the type of that field in other clothes: every use of the type becomes the field's type, `x.f` becomes `x`,
+// `T{f: e}` becomes `e` and `T{}` the zero value. A struct with one field has the layout and the copy semantics of that
+// field, so nothing observable changes; the result is type-checked like every other round.
+func (n *normalizer) unwrapRound() bool {
+	changed := false
+	for _, f := range n.pp.Syntax {
+		for _, d := range f.Decls {
+			gd, ok := d.(*ast.GenDecl)
+			if !ok || gd.Tok != token.TYPE || changed {
+				continue
+			}
+			for _, sp := range gd.Specs {
+				ts, ok := sp.(*ast.TypeSpec)
+				if !ok || ts.TypeParams != nil || ts.Assign.IsValid() || headTypes[ts.Name.Name] {
+					continue
+				}
+				stx, ok := ts.Type.(*ast.StructType)
+				if !ok {
+					continue
+				}
+				tn, _ := n.info.Defs[ts.Name].(*types.TypeName)
+				if tn == nil {
+					continue
+				}
+				named, ok := tn.Type().(*types.Named)
+				if !ok || named.NumMethods() > 0 {
+					continue
+				}
+				st, ok := named.Underlying().(*types.Struct)
+				if !ok || st.NumFields() != 1 || st.Field(0).Name() == "_" {
+					continue
+				}
+				fld := st.Field(0)
+				// the field's type must not be an interface or a pointer to a type with methods the wrapper would hide… (kept
+				// simple: any type; promoted methods resolve on the field's type directly once the wrapper is gone)
+				if n.tryUnwrap(tn, named, fld, ts, stx) {
+					changed = true
+					break
+				}
+			}
+		}
+	}
+	return changed
+}
+
+func (n *normalizer) tryUnwrap(tn *types.TypeName, named *types.Named, fld *types.Var, ts *ast.TypeSpec, stx *ast.StructType) bool {
+	type ed struct {
+		file string
+		s, e int
+		t    string
+	}
+	var eds []ed
+	good := true
+	for _, f := range n.pp.Syntax {
+		filename := n.fset.File(f.Pos()).Name()
+		gtext, ok := n.typeText(fld.Type(), f, filename)
+		if !ok {
+			return false
+		}
+		parent := map[ast.Node]ast.Node{}
+		var stack []ast.Node
+		ast.Inspect(f, func(x ast.Node) bool {
+			if x == nil {
+				stack = stack[:len(stack)-1]
+				return true
+			}
+			if len(stack) > 0 {
+				parent[x] = stack[len(stack)-1]
+			}
+			stack = append(stack, x)
+			return true
+		})
+		handledLit := map[*ast.CompositeLit]bool{}
+		ast.Inspect(f, func(x ast.Node) bool {
+			if !good {
+				return false
+			}
+			switch y := x.(type) {
+			case *ast.CompositeLit:
+				if t := n.info.TypeOf(y); t == nil || !types.Identical(t, named) {
+					return true
+				}
+				if u, isAddr := parent[y].(*ast.UnaryExpr); isAddr && u.Op == token.AND {
+					good = false
+					return false
+				}
+				handledLit[y] = true
+				text := ""
+				switch len(y.Elts) {
+				case 0:
+					text = n.zeroText(fld.Type(), f, filename)
+					if text == "" {
+						good = false
+						return false
+					}
+					if text == "nil" {
+						text = gtext + "(nil)"
+					}
+				case 1:
+					v := y.Elts[0]
+					if kv, isKV := v.(*ast.KeyValueExpr); isKV {
+						v = kv.Value
+					}
+					text = gtext + "(" + n.src(filename, v.Pos(), v.End()) + ")"
+					// nested uses inside the value are not rewritten in the same round
+					nested := false
+					ast.Inspect(v, func(z ast.Node) bool {
+						if id, ok := z.(*ast.Ident); ok && n.info.Uses[id] == types.Object(tn) {
+							nested = true
+						}
+						if se, ok := z.(*ast.SelectorExpr); ok {
+							if sel := n.info.Selections[se]; sel != nil && sel.Obj() == types.Object(fld) {
+								nested = true
+							}
+						}
+						return true
+					})
+					if nested {
+						good = false
+						return false
+					}
+				default:
+					good = false
+					return false
+				}
+				eds = append(eds, ed{filename, n.off(y.Pos()), n.off(y.End()), text})
+				return false
+			case *ast.SelectorExpr:
+				sel := n.info.Selections[y]
+				if sel == nil || sel.Kind() != types.FieldVal {
+					return true
+				}
+				if sel.Obj() == types.Object(fld) && len(sel.Index()) == 1 {
+					// x.f -> x, (*p).f / p.f -> *p
+					xt := n.info.TypeOf(y.X)
+					xs := n.src(filename, y.X.Pos(), y.X.End())
+					// selections of the field nested in the operand are rewritten in a later round
+					nested := false
+					ast.Inspect(y.X, func(z ast.Node) bool {
+						if se, ok := z.(*ast.SelectorExpr); ok {
+							if s2 := n.info.Selections[se]; s2 != nil && s2.Obj() == types.Object(fld) {
+								nested = true
+							}
+						}
+						if cl, ok := z.(*ast.CompositeLit); ok {
+							if t := n.info.TypeOf(cl); t != nil && types.Identical(t, named) {
+								nested = true
+							}
+						}
+						return true
+					})
+					if nested {
+						good = false
+						return false
+					}
+					if _, isPtr := xt.Underlying().(*types.Pointer); isPtr {
+						eds = append(eds, ed{filename, n.off(y.Pos()), n.off(y.End()), "(*" + xs + ")"})
+					} else {
+						eds = append(eds, ed{filename, n.off(y.Pos()), n.off(y.End()), "(" + xs + ")"})
+					}
+					return false
+				}
+				return true
+			case *ast.Ident:
+				if n.info.Uses[y] != types.Object(tn) {
+					return true
+				}
+				if cl, isLit := parent[y].(*ast.CompositeLit); isLit && cl.Type == ast.Expr(y) && handledLit[cl] {
+					return true
+				}
+				if kv, isKV := parent[y].(*ast.KeyValueExpr); isKV && kv.Key == ast.Expr(y) {
+					return true // the embedded field's key inside a literal that is replaced as a whole
+				}
+				eds = append(eds, ed{filename, n.off(y.Pos()), n.off(y.End()), gtext})
+			}
+			return true
+		})
+	}
+	if !good {
+		return false
+	}
+	// the declaration itself: an alias nobody uses any more
+	declFile := n.fset.File(ts.Pos()).Name()
+	var declF *ast.File
+	for _, f := range n.pp.Syntax {
+		if n.fset.File(f.Pos()).Name() == declFile {
+			declF = f
+		}
+	}
+	gtext, ok := n.typeText(fld.Type(), declF, declFile)
+	if !ok {
+		return false
+	}
+	eds = append(eds, ed{declFile, n.off(stx.Pos()), n.off(stx.End()), "= " + gtext})
+	sort.Slice(eds, func(i, j int) bool {
+		if eds[i].file != eds[j].file {
+			return eds[i].file < eds[j].file
+		}
+		return eds[i].s < eds[j].s
+	})
+	for i := 1; i < len(eds); i++ {
+		if eds[i].file == eds[i-1].file && eds[i].s < eds[i-1].e {
+			return false
+		}
+	}
+	for _, e := range eds {
+		if n.overlaps(e.file, e.s, e.e) {
+			return false
+		}
+	}
+	for _, e := range eds {
+		n.addEdit(e.file, e.s, e.e, e.t)
+	}
+	n.notes = append(n.notes, fmt.Sprintf("one-field struct type %s replaced by the type of its field %s", tn.Name(), fld.Name()))
+	return true
+}
